@@ -8,6 +8,7 @@ and #42 applied (and the two printer defects found on the way: numeric ranges, r
 import SfntV.Proofs.DslLexer
 import SfntV.Proofs.DslRoundtrip
 import SfntV.Proofs.DslTotal
+import SfntV.Proofs.DslGsub23
 
 namespace SfntV.Props.C19
 open SfntV SfntV.Dsl
@@ -120,7 +121,7 @@ theorem C19_leak_before_repair :
 /-! ## round trips -/
 
 /-- a glyph name the notation can use: it lexes as exactly one identifier -/
-def identOk (name : List Nat) : Bool :=
+def identOkB (name : List Nat) : Bool :=
   match lexBytes name with
   | [t, e] => t.typ == tIdentifier && t.bytes == name && e.typ == tEOF
   | _ => false
@@ -131,14 +132,14 @@ def ascending : List Nat → Bool
 
 /-- fonts whose glyphs the notation can name: fewer than 65536 glyphs, non-empty names are
 distinct identifiers, the cmap maps distinct runes to glyphs of the font -/
-def FontOk (f : Font) : Bool :=
+def FontOkB (f : Font) : Bool :=
   f.numGlyphs < 65536 && f.names.length ≤ f.numGlyphs &&
-  f.names.all (fun n => n == [] || identOk n) &&
+  f.names.all (fun n => n == [] || identOkB n) &&
   (f.names.filter (· != [])).Nodup &&
   f.cmap.all (fun p => p.2 < f.numGlyphs) && (f.cmap.map (·.1)).Nodup
 
 /-- subtables the language has syntax for (coverage ascending = canonical index order) -/
-def SubOk (f : Font) : Subtable → Bool
+def SubOkB (f : Font) : Subtable → Bool
   | .gsub1_1 cov d => cov != [] && ascending cov && cov.all (fun g => g < f.numGlyphs && (g + d) % 65536 < f.numGlyphs) && d < 65536
   | .gsub1_2 cov s => cov != [] && ascending cov && cov.length == s.length && (cov ++ s).all (· < f.numGlyphs)
   | .gsub2_1 cov r => cov != [] && ascending cov && cov.length == r.length && cov.all (· < f.numGlyphs) &&
@@ -158,14 +159,14 @@ def subType : Subtable → Nat
   | _ => 0
 
 /-- one or more subtables, all of the lookup's type, separated by `||` in the notation -/
-def LookupOk (f : Font) (l : Lookup) : Bool :=
-  l.flags < 16 && l.subtables != [] && l.subtables.all fun s => SubOk f s && subType s == l.typ
+def LookupOkB (f : Font) (l : Lookup) : Bool :=
+  l.flags < 16 && l.subtables != [] && l.subtables.all fun s => SubOkB f s && subType s == l.typ
 
 /-- FULL statement of the round trip for lookup type `t` (GSUB 1–4): for every font of the
 domain and every list of lookups of that type in the domain, parsing the description gives the
 lookups back (a 1.2 table with constant offset comes back as 1.1). -/
 def C19_roundtrip_full (t : Nat) : Prop :=
-  ∀ (f : Font) (ls : List Lookup), FontOk f = true → (∀ l ∈ ls, LookupOk f l = true ∧ l.typ = t) →
+  ∀ (f : Font) (ls : List Lookup), FontOkB f = true → (∀ l ∈ ls, LookupOkB f l = true ∧ l.typ = t) →
     parseBytes f (explainGsub f ls) = .ok (normalize ls)
 
 /-! The proved part: exhaustive universes over two small fonts — one without glyph names and
@@ -178,8 +179,8 @@ def fontN : Font :=
   { numGlyphs := 5, names := [[46, 110, 111, 116, 100, 101, 102], [65], [66], [], [120, 49]],
     cmap := [(65, 1), (66, 2), (34, 3), (92, 4), (67, 1)] }
 
-example : FontOk fontU = true := by decide +kernel
-example : FontOk fontN = true := by decide +kernel
+example : FontOkB fontU = true := by decide +kernel
+example : FontOkB fontN = true := by decide +kernel
 
 def covs (gs : List Nat) : List (List Nat) := (sublists gs).filter (· != [])
 
@@ -222,25 +223,71 @@ def univ4 : List Lookup :=
 def cross : List Lookup := (univ1_1 fontN).take 2 ++ univ2wide.take 1 ++ univ3wide.take 2 ++ univ4.take 1
 
 example : (univ1_1 fontU ++ univ1_2 ++ univ2 ++ univ2wide ++ univ3 ++ univ3wide ++ univ4).all
-    (fun l => LookupOk fontU l && LookupOk fontN l) = true := by decide +kernel
+    (fun l => LookupOkB fontU l && LookupOkB fontN l) = true := by decide +kernel
 
-/-- the glyph-list notation alone: what `writeGlyphList` writes (followed by a line break) is
-read back by `readGlyphList` as the same list -/
-def glOk (f : Font) (l : List Nat) : Bool :=
-  let toks := lexBytes (renderBytes ((newExplainer f).writeGlyphList l) ++ [10])
-  match (readGlyphList f (toks.length + 2)).run { toks := toks, backlog := [], last := zeroTok } with
-  | .ok (r, _) => r == l
-  | .error _ => false
+/-- Glyph lists, for every font of the domain and every list of its glyphs: what `writeGlyphList`
+writes (names, numbers for unnamed glyphs, quoted strings of printable runes through the cmap
+with `\"` and `\\` escaped, blanks between names), followed by a line break, is lexed and read
+back by `readGlyphList` as exactly the same list.  The domain `FontOk`: fewer than 65536 glyphs,
+non-empty glyph names distinct and each the UTF-8 text of one identifier, the cmap maps
+distinct runes to glyphs of the font. -/
+theorem C19_glyphlist_roundtrip (f : Font) (hf : FontOk f) (gl : List Nat) (h : ∀ g ∈ gl, g < f.numGlyphs) :
+    glRun f gl = .ok gl :=
+  glyphlist_roundtrip f hf gl h
 
-/-- FULL statement for glyph lists: every list of glyphs of a font of the domain is read back. -/
-def C19_glyphlist_roundtrip_full : Prop :=
-  ∀ (f : Font) (l : List Nat), FontOk f = true → (∀ g ∈ l, g < f.numGlyphs) → glOk f l = true
+/-- GSUB 2 (multiple substitution), for every font of the domain and every list of lookups of
+type 2 with any of the 16 flag sets, one or more subtables (`||`), ascending coverage, glyphs
+inside the font and non-empty replacement sequences: parsing the description gives exactly
+the lookups back (printer, UTF-8, lexer, parser; several lookups per description). -/
+theorem C19_roundtrip_gsub2 (f : Font) (hf : FontOk f) (ls : List Lookup) (h : ∀ l ∈ ls, Lookup2Ok f l) :
+    parseBytes f (explainGsub f ls) = .ok ls :=
+  roundtrip_gsub2 f hf ls h
 
-/-- Proved part: all glyph lists of length ≤ 3 over both fonts (numbers; names, an unnamed
-glyph, strings with `\"` and `\\`, a glyph reached from two runes). -/
-theorem C19_glyphlist_roundtrip_partial :
-    ∀ l ∈ listsUpTo [0, 1, 2, 3, 4] 3, glOk fontU l = true ∧ glOk fontN l = true := by
-  decide +kernel
+/-- GSUB 3 (alternates), same generality; the alternates keep their order and may repeat or be
+empty (`[]`). -/
+theorem C19_roundtrip_gsub3 (f : Font) (hf : FontOk f) (ls : List Lookup) (h : ∀ l ∈ ls, Lookup3Ok f l) :
+    parseBytes f (explainGsub f ls) = .ok ls :=
+  roundtrip_gsub3 f hf ls h
+
+/-! Non-vacuity of the domain: the font with names, an unnamed glyph and a cmap containing `"` and
+`\` is in it; so is the font without names; lookups with two subtables and flags satisfy the
+hypotheses. -/
+
+theorem fontN_ok : FontOk fontN := by
+  refine ⟨by decide, by decide, ?_, ?_, by decide, by decide, by decide⟩
+  · intro n hn hne
+    simp [fontN] at hn
+    rcases hn with rfl | rfl | rfl | rfl | rfl
+    · exact nameOk_ascii 46 _ (by decide) (by decide)
+    · exact nameOk_ascii 65 _ (by decide) (by decide)
+    · exact nameOk_ascii 66 _ (by decide) (by decide)
+    · exact absurd rfl hne
+    · exact nameOk_ascii 120 _ (by decide) (by decide)
+  · intro i j hi hj h1 h2
+    have hi5 : i < 5 := hi
+    have hj5 : j < 5 := hj
+    rcases i with _ | _ | _ | _ | _ | i <;> rcases j with _ | _ | _ | _ | _ | j <;>
+      first | rfl | omega | (simp [fontN] at h1 h2)
+
+theorem fontU_ok : FontOk fontU := by
+  refine ⟨by decide, by decide, ?_, ?_, by decide, by decide, by decide⟩
+  · intro n hn; simp [fontU] at hn
+  · intro i j hi; simp [fontU] at hi
+
+example : Lookup2Ok fontN { typ := 2, flags := 9, subtables := [.gsub2_1 [1, 4] [[3], [1, 2, 3]], .gsub2_1 [2] [[2, 2]]] } :=
+  ⟨rfl, by decide, by simp, by
+    intro st hst
+    simp at hst
+    rcases hst with rfl | rfl
+    · exact ⟨_, _, rfl, ⟨by simp, by simp [Asc], rfl, by decide, by decide⟩⟩
+    · exact ⟨_, _, rfl, ⟨by simp, by simp [Asc], rfl, by decide, by decide⟩⟩⟩
+
+example : Lookup3Ok fontU { typ := 3, flags := 0, subtables := [.gsub3_1 [1, 2] [[4, 3, 3], []]] } :=
+  ⟨rfl, by decide, by simp, by
+    intro st hst
+    simp at hst
+    subst hst
+    exact ⟨_, _, rfl, ⟨by simp, by simp [Asc], rfl, by decide, by decide⟩⟩⟩
 
 /-- GSUB 1 (single substitution), proved part of `C19_roundtrip_full 1`: every format 1.1 and 1.2
 lookup of the universes round-trips over both fonts (numbers and ranges; names and strings). -/
@@ -249,15 +296,8 @@ theorem C19_roundtrip_gsub1_partial :
     (∀ l ∈ univ1_1 fontN ++ univ1_2, rtOk fontN [l] = true) := by
   decide +kernel
 
-/-- GSUB 2 (multiple substitution), proved part of `C19_roundtrip_full 2`. -/
-theorem C19_roundtrip_gsub2_partial :
-    (∀ l ∈ univ2 ++ univ2wide, rtOk fontU [l] = true) ∧ (∀ l ∈ univ2 ++ univ2wide, rtOk fontN [l] = true) := by
-  decide +kernel
-
-/-- GSUB 3 (alternates), proved part of `C19_roundtrip_full 3`: in particular the order of the
-alternates is kept (`[3, 1]` comes back as `[3, 1]`, DESIGN §9 #41). -/
-theorem C19_roundtrip_gsub3_partial :
-    (∀ l ∈ univ3 ++ univ3wide, rtOk fontU [l] = true) ∧ (∀ l ∈ univ3 ++ univ3wide, rtOk fontN [l] = true) := by
+/-- kernel evaluation of the same pipeline on concrete lookups (what the theorems say, computed) -/
+example : (∀ l ∈ univ2wide.take 6, rtOk fontN [l] = true) ∧ (∀ l ∈ univ3wide.take 6, rtOk fontU [l] = true) := by
   decide +kernel
 
 /-- GSUB 4 (ligatures), proved part of `C19_roundtrip_full 4`: several ligatures per first glyph
@@ -272,7 +312,7 @@ def multi : List Lookup :=
     { typ := 3, flags := 8, subtables := [.gsub3_1 [2] [[]], .gsub3_1 [1, 2] [[4, 3], [2]]] },
     { typ := 4, flags := 4, subtables := [.gsub4_1 [1] [[([2], 3), ([], 4)]], .gsub4_1 [1, 3] [[([], 2)], [([1, 1], 1)]]] } ]
 
-example : multi.all (fun l => LookupOk fontU l && LookupOk fontN l) = true := by decide +kernel
+example : multi.all (fun l => LookupOkB fontU l && LookupOkB fontN l) = true := by decide +kernel
 
 /-- Several subtables per lookup, written with the `||` separator, round-trip for each of
 GSUB 1–4 (DESIGN §9 #42, after the repair), alone and all four in one description. -/
@@ -318,7 +358,7 @@ font (coverage ascending, glyphs inside the font, class numbers 1…k all used, 
 (classes₁+1) × (classes₂+1) entries, values in int16): deferred to the correspondence
 (`dsl.roundtrip`, `dsl.modelrt` with `tab=gpos`). -/
 def C19_roundtrip_gpos_full (t : Nat) (dom : Font → Lookup → Prop) : Prop :=
-  ∀ (f : Font) (ls : List Lookup), FontOk f = true → (∀ l ∈ ls, dom f l ∧ l.typ = t) →
+  ∀ (f : Font) (ls : List Lookup), FontOkB f = true → (∀ l ∈ ls, dom f l ∧ l.typ = t) →
     parseBytes f (explainGpos f ls) = .ok (normalize ls)
 
 /-- GPOS 1 (single adjustment), proved part: formats 1.1 and 1.2, every value-record shape
